@@ -523,4 +523,198 @@ Section Seq.
     - apply step_n2; exact H.
     - exact H.
   Qed.
+
+  Lemma run_alone_inv : forall n o s l, LInv o s l -> LInv o (fst (run_alone chain meth n s l)) (snd (run_alone chain meth n s l)).
+  Proof.
+    induction n as [|n IH]; intros o s l H; cbn; [exact H|].
+    pose proof (step_inv o s l H) as H'. destruct (step s l) as [s' l']. apply IH; exact H'.
+  Qed.
+
+  Definition Ready (s : shared) : Prop := Recov s \/ Good s.
+
+  (* a call from a not-yet-built or a consistent state returns the outcome over the complete table *)
+  Theorem call_correct : forall fuel s k s' x, Ready s ->
+    run_op chain meth fuel s (OCall k) = (s', Some x) -> x = spec_call chain meth D k /\ Good s'.
+  Proof.
+    intros fuel s k s' x R H. unfold run_op in H.
+    assert (I : LInv (OCall k) s (start (OCall k))) by (unfold LInv; cbn; auto).
+    apply (run_alone_inv fuel) in I. destruct (run_alone chain meth fuel s (start (OCall k))) as [s1 l1].
+    cbn [fst snd] in I. injection H as <- H. unfold result_of in H. unfold LInv in I.
+    destruct (l_pc l1); try discriminate. injection H as <-. destruct I as [G E]. auto.
+  Qed.
+
+  Theorem probes_correct : forall ks fuel s xs, Ready s ->
+    probes chain meth fuel s ks = map Some xs -> xs = map (spec_call chain meth D) ks.
+  Proof.
+    unfold probes. induction ks as [|k ks IH]; intros fuel s xs R H; cbn in H.
+    - destruct xs; [reflexivity|discriminate].
+    - destruct (run_op chain meth fuel s (OCall k)) as [s1 x] eqn:E1.
+      destruct (run_ops chain meth fuel s1 (map OCall ks)) as [s2 rest] eqn:E2. cbn in H.
+      destruct xs as [|x0 xs]; [discriminate|]. cbn in H. injection H as -> H.
+      destruct (call_correct _ _ _ _ _ R E1) as [-> G]. cbn. f_equal.
+      apply (IH fuel s1 xs (or_intror G)). rewrite E2; exact H.
+  Qed.
+
+  Theorem safe_point_ready : forall n s k, Ready s ->
+    let r := run_alone chain meth n s (start (OCall k)) in safe_point (snd r) = true -> Ready (fst r).
+  Proof.
+    intros n s k R r SP.
+    assert (I : LInv (OCall k) s (start (OCall k))) by (unfold LInv; cbn; auto).
+    apply (run_alone_inv n) in I. fold r in I. destruct r as [s1 l1]. cbn [fst snd] in *.
+    unfold safe_point, before_swap, in_compile, in_write_window in SP. unfold LInv in I. unfold Ready.
+    destruct (l_pc l1) as [o'|  |c a|k'|t k' cl|t k' cl st ws|t k' cl|h k'|h k'|t h k'|t h k'|r'].
+    - destruct I as (_ & _ & I); exact I.
+    - destruct I as (I & _). exfalso; eapply I; reflexivity.
+    - destruct I as (AO & _ & HD & I). destruct a as [k2|]; [|exfalso; eapply AO; reflexivity].
+      destruct c; cbn in SP; try discriminate; left; unfold Recov; cbn in I; tauto.
+    - right; apply I.
+    - right; apply I.
+    - destruct I as (_ & _ & _ & -> & G & GS & NE & AG & done & EW & PR).
+      destruct st; [|right; auto]. destruct ws; [|discriminate].
+      right. eapply GoodX_close; eauto. rewrite app_nil_r in EW. split.
+      + rewrite (Good_regs _ _ G); exact AG.
+      + intros w Hw; apply PR; rewrite <- EW; exact Hw.
+    - right; apply I.
+    - right; apply I.
+    - right; apply I.
+    - right; apply I.
+    - right; apply I.
+    - right; apply I.
+  Qed.
+
+  (* any change made while _compiled is set rebuilds everything, whatever the tables looked like *)
+  Theorem rebuild_heals : forall fuel s o s' x, s_compiled s = true ->
+    match o with OCall _ => False | OReg d => s_defs s ++ [d] = D | OUnreg d => remove_label d (s_defs s) = D end ->
+    run_op chain meth fuel s o = (s', Some x) -> x = ([], RRet) /\ Good s'.
+  Proof.
+    intros fuel s o s' x C HD H. unfold run_op in H.
+    assert (I : LInv o s (start o)) by (unfold LInv; cbn; destruct o; [contradiction| |]; auto).
+    apply (run_alone_inv fuel) in I. destruct (run_alone chain meth fuel s (start o)) as [s1 l1].
+    cbn [fst snd] in I. injection H as <- H. unfold result_of in H. unfold LInv in I.
+    destruct (l_pc l1); try discriminate. injection H as <-. destruct I as [G E].
+    destruct o; [contradiction| |]; destruct E as [-> ->]; auto.
+  Qed.
 End Seq.
+
+(* ---- facts that need no validity of the definitions ---- *)
+Section Any.
+  Variable chain : list label -> key -> list rank.
+  Variable meth : label -> minfo.
+
+  Lemma tstep_compiled : forall s l, s_compiled s = true -> s_compiled (fst (tstep chain meth s l)) = true.
+  Proof.
+    intros s [p tr] H. destruct p as [[k|d|d]| |c a|k|t k cl|t k cl st ws|t k cl|h k|h k|t h k|t h k|r]; unfold tstep; cbn [l_pc l_trace]; try rewrite H;
+      repeat match goal with |- context [match ?x with _ => _ end] => destruct x end; cbn; auto.
+  Qed.
+
+  Lemma run_alone_compiled : forall n s l, s_compiled s = true -> s_compiled (fst (run_alone chain meth n s l)) = true.
+  Proof.
+    induction n as [|n IH]; intros s l H; cbn; auto.
+    pose proof (tstep_compiled s l H). destruct (tstep chain meth s l) as [s' l']. apply IH; auto.
+  Qed.
+
+  Lemma run_alone_done : forall n s tr r, run_alone chain meth n s {| l_pc := PDone r; l_trace := tr |} = (s, {| l_pc := PDone r; l_trace := tr |}).
+  Proof. induction n; intros; cbn; auto. Qed.
+
+  (* first build with a method that makes argument analysis fail: configuration error, nothing changed that matters *)
+  Definition Unbuilt (s : shared) : Prop := s_entry s = Boot /\ s_compiled s = false.
+
+  Lemma bad_analysis_call : forall fuel s k, Unbuilt s -> existsb (is_bad_analysis meth) (s_defs s) = true -> 4 <= fuel ->
+    exists s', run_op chain meth fuel s (OCall k) = (s', Some ([], RErr EConfig)) /\ Unbuilt s' /\ s_defs s' = s_defs s.
+  Proof.
+    intros fuel s k [A B] E F. do 4 (destruct fuel as [|fuel]; [lia|]).
+    unfold run_op. cbn [run_alone]. unfold tstep at 1. cbn. rewrite A. cbn. rewrite E. cbn. unfold at_pc, start; cbn [l_trace].
+    rewrite run_alone_done. eexists; split; [reflexivity|]. cbn. unfold Unbuilt; cbn. auto.
+  Qed.
+
+  Lemma unbuilt_change : forall fuel s o, Unbuilt s -> 2 <= fuel -> (forall k, o <> OCall k) ->
+    exists s', run_op chain meth fuel s o = (s', Some ([], RRet)) /\ Unbuilt s' /\
+      s_defs s' = match o with OReg d => s_defs s ++ [d] | OUnreg d => remove_label d (s_defs s) | OCall _ => s_defs s end.
+  Proof.
+    intros fuel s o [A B] F N. do 2 (destruct fuel as [|fuel]; [lia|]).
+    destruct o as [k|d|d]; [exfalso; eapply N; reflexivity| |];
+      unfold run_op; cbn [run_alone]; unfold tstep at 1; cbn; rewrite B; cbn; unfold at_pc, start; cbn [l_trace]; rewrite run_alone_done;
+      (eexists; split; [reflexivity|]); unfold Unbuilt; cbn; auto.
+  Qed.
+End Any.
+
+Section Assembled.
+  Variable chain : list label -> key -> list rank.
+  Variable meth : label -> minfo.
+  Hypothesis Hnd : forall regs k, NoDup regs -> NoDup (handlers (chain regs k)).
+  Hypothesis Hsub : forall regs k h, In h (handlers (chain regs k)) -> In h regs.
+  Hypothesis Hrec : forall l, m_body (meth l) = BNext -> m_recoded (meth l) = true.
+
+  Lemma calls_ready : forall D, NoDup D -> all_ok meth D = true -> forall ks fuel s xs, Ready chain meth D s ->
+    snd (run_ops chain meth fuel s (map OCall ks)) = map Some xs -> Ready chain meth D (fst (run_ops chain meth fuel s (map OCall ks))).
+  Proof.
+    intros D ND OK. induction ks as [|k ks IH]; intros fuel s xs R H; cbn in *; [exact R|].
+    destruct (run_op chain meth fuel s (OCall k)) as [s1 x] eqn:E1.
+    destruct (run_ops chain meth fuel s1 (map OCall ks)) as [s2 rest] eqn:E2. cbn in *.
+    destruct xs as [|x0 xs]; [discriminate|]. cbn in H. injection H as -> H.
+    destruct (call_correct chain meth Hnd Hsub Hrec D ND OK _ _ _ _ _ R E1) as [_ G].
+    specialize (IH fuel s1 xs (or_intror G)). rewrite E2 in IH. apply IH; exact H.
+  Qed.
+
+  (* C18, proved part 1: first build and cache-miss resolution.  History = any completed calls; failure at any
+     step boundary outside the two windows; all later probes return the outcome over the complete table. *)
+  Theorem partial_call : forall D, NoDup D -> all_ok meth D = true ->
+    forall ks0 fuel0 xs0, snd (run_ops chain meth fuel0 (init D) (map OCall ks0)) = map Some xs0 ->
+    let s := fst (run_ops chain meth fuel0 (init D) (map OCall ks0)) in
+    forall k0 n, safe_point (snd (run_alone chain meth n s (start (OCall k0)))) = true ->
+    forall ks fuel xs, probes chain meth fuel (fail_after chain meth n s (OCall k0)) ks = map Some xs ->
+      xs = map (spec_call chain meth D) ks.
+  Proof.
+    intros D ND OK ks0 fuel0 xs0 H0 s k0 n SP ks fuel xs HP.
+    assert (R : Ready chain meth D s).
+    { apply (calls_ready D ND OK ks0 fuel0 (init D) xs0); [left; unfold Recov, init; cbn; auto|exact H0]. }
+    pose proof (safe_point_ready chain meth Hnd Hsub Hrec D ND OK n s k0 R SP) as R'.
+    eapply (probes_correct chain meth Hnd Hsub Hrec D ND OK); [exact R'|exact HP].
+  Qed.
+
+  (* C18, proved part 2: rebuild.  From ANY state in which _compiled is set (whatever a failed operation left behind),
+     after a failure at ANY point of ANY operation, unregistering a method such that the remaining definitions are valid
+     rebuilds everything: all later probes return the outcome over the complete table. *)
+  Theorem partial_removal_rebuild : forall s, s_compiled s = true ->
+    forall trig n d fuel s2 x, let s1 := fail_after chain meth n s trig in
+    NoDup (remove_label d (s_defs s1)) -> all_ok meth (remove_label d (s_defs s1)) = true ->
+    run_op chain meth fuel s1 (OUnreg d) = (s2, Some x) ->
+    forall ks fuel' xs, probes chain meth fuel' s2 ks = map Some xs ->
+      xs = map (spec_call chain meth (remove_label d (s_defs s1))) ks.
+  Proof.
+    intros s C trig n d fuel s2 x s1 ND OK H ks fuel' xs HP.
+    assert (C1 : s_compiled s1 = true) by (apply run_alone_compiled; exact C).
+    destruct (rebuild_heals chain meth Hnd Hsub Hrec _ ND OK fuel s1 (OUnreg d) s2 x C1 eq_refl H) as [_ G].
+    eapply (probes_correct chain meth Hnd Hsub Hrec _ ND OK); [right; exact G|exact HP].
+  Qed.
+
+  (* C18, proved part 3: first build with a method that makes argument analysis fail (conflicting argument names):
+     every call raises the configuration error again; after unregistering so that the rest is valid, everything works. *)
+  Lemma bad_analysis_probes : forall ks fuel s, Unbuilt s -> existsb (is_bad_analysis meth) (s_defs s) = true -> 4 <= fuel ->
+    probes chain meth fuel s ks = map (fun _ => Some ([], RErr EConfig)) ks /\
+    Unbuilt (fst (run_ops chain meth fuel s (map OCall ks))) /\ s_defs (fst (run_ops chain meth fuel s (map OCall ks))) = s_defs s.
+  Proof.
+    unfold probes. induction ks as [|k ks IH]; intros fuel s U B F; cbn; [auto|].
+    destruct (bad_analysis_call chain meth fuel s k U B F) as (s1 & E & U1 & D1). rewrite E.
+    assert (B1 : existsb (is_bad_analysis meth) (s_defs s1) = true) by (rewrite D1; exact B).
+    destruct (IH fuel s1 U1 B1 F) as (P & U2 & D2).
+    destruct (run_ops chain meth fuel s1 (map OCall ks)) as [s2 rest]. cbn in *. rewrite P, D2, D1. auto.
+  Qed.
+
+  Theorem partial_bad_analysis : forall defs ks fuel, existsb (is_bad_analysis meth) defs = true -> 4 <= fuel ->
+    probes chain meth fuel (init defs) ks = map (fun _ => Some ([], RErr EConfig)) ks /\
+    forall d, NoDup (remove_label d defs) -> all_ok meth (remove_label d defs) = true ->
+      let s1 := fst (run_ops chain meth fuel (init defs) (map OCall ks)) in
+      exists s2, run_op chain meth fuel s1 (OUnreg d) = (s2, Some ([], RRet)) /\
+        forall ks' fuel' xs, probes chain meth fuel' s2 ks' = map Some xs -> xs = map (spec_call chain meth (remove_label d defs)) ks'.
+  Proof.
+    intros defs ks fuel B F.
+    assert (U : Unbuilt (init defs)) by (unfold Unbuilt, init; cbn; auto).
+    destruct (bad_analysis_probes ks fuel (init defs) U B F) as (P & U1 & D1). split; [exact P|].
+    intros d ND OK s1.
+    destruct (unbuilt_change chain meth fuel s1 (OUnreg d) U1 ltac:(lia) ltac:(discriminate)) as (s2 & E & U2 & D2).
+    exists s2. split; [exact E|]. intros ks' fuel' xs HP.
+    eapply (probes_correct chain meth Hnd Hsub Hrec _ ND OK); [|exact HP].
+    left. destruct U2 as [A B2]. unfold Recov. rewrite D2. unfold s1. rewrite D1. cbn. auto.
+  Qed.
+End Assembled.
